@@ -132,8 +132,9 @@ def r2(R, repo):
     cs = [x for x in astu.func_calls(f) if astu.call_name(x) == '_compute_stats']
     R.judge(len(cs) == 1 and not astu.has_star_kwargs(cs[0]), len(cs) == 1 and flow.kw_forwarded(cs[0], 'mask') and all(c.edge_guarded(n, t[0], 'F') for n in c.nodes_for(cs[0])), key_of(f, 'batch statistics (with mask) only in training mode'), f, 'batch statistics must be computed with the given mask, and only when not using running averages')
     if rel == LN:
-      ti = [n for n in c.nodes if n.kind == 'if' and astu.src(n.ast) == 'not self.is_initializing()']
-      R.judge(len(ti) == 1 and bool(stores), len(ti) == 1 and all(c.edge_guarded(s, ti[0], 'T') for s in stores), key_of(f, 'no update while initialising'), f, 'Linen BatchNorm must not update the running statistics during init')
+      # every store into the running statistics must be reached only through an edge that establishes "not initialising"
+      evid.judge_guard(R, c, stores, evid.call_named('is_initializing'), key_of(f, 'no update while initialising'), f,
+                       'Linen BatchNorm must not update the running statistics during init (they must start at mean 0 / var 1): the stores are not guarded by `not self.is_initializing()`', negative=True)
 
 
 @rule('C12.R3', 'K6', 8, '_compute_stats: every mean (also the variance of the two-pass form) is taken over the masked positions only')
@@ -231,6 +232,45 @@ def r5(R, repo):
     emb = 'embedding'
     R.check(emb in astu.src(at.node) and emb in astu.src(cl.node) and ('.T' in astu.src(at.node) or 'dot' in astu.src(at.node)), key_of(at, 'attend contracts with the same embedding table'), at, 'Embed.attend must contract the query with the same embedding table that __call__ indexes')
 
+
+
+@rule('C12.R6', 'K3', 8, 'an NNX layer\'s forward pass never writes into its own parameters (only BatchNorm\'s running statistics are updated)')
+def r6(R, repo):
+  n = 0
+  for rel in (NL, NN, NS, 'flax/nnx/nn/lora.py'):
+    if rel not in repo._paths:
+      continue
+    mod = repo.mod(rel)
+    for q, f in sorted(mod.funcs.items()):
+      if not q.endswith('.__call__') or q.count('.') != 1:
+        continue
+      n += 1
+      bad = None
+      me = astu.params(f.node)[0] if astu.params(f.node) else 'self'
+      # names that hold a Variable of the layer itself (self.kernel), not its value (self.kernel.value)
+      holders = set()
+      for nm in {t.id for st in astu.body_walk(f.node) if isinstance(st, ast.Assign) for t in st.targets if isinstance(t, ast.Name)}:
+        ds = [d[0] for d in flow.defs(f, nm) if isinstance(d[0], ast.AST)]
+        if ds and any(isinstance(d, ast.Attribute) and isinstance(d.value, ast.Name) and d.value.id == me for d in ds):
+          holders.add(nm)
+      for st in astu.body_walk(f.node):
+        if isinstance(st, ast.AugAssign):
+          t = st.target
+          if isinstance(t, ast.Name) and t.id in holders:
+            bad = (st, '`%s` updates `%s` in place, and `%s` is the layer\'s own Variable (bound from `%s.%s`, not from its `.value`): the stored parameter is overwritten on every forward pass' % (
+                astu.short(st), t.id, t.id, me, next(astu.src(d[0]).split('.', 1)[1] for d in flow.defs(f, t.id) if isinstance(d[0], ast.Attribute))))
+          elif isinstance(t, ast.Attribute) and astu.src(t).startswith(me + '.') and rel != NN:
+            bad = (st, '`%s` writes into the layer\'s own state during the forward pass' % astu.short(st))
+        elif isinstance(st, ast.Assign) and rel != NN:
+          for t in st.targets:
+            if isinstance(t, ast.Attribute) and astu.src(t).startswith(me + '.') and t.attr == 'value':
+              bad = (st, '`%s` overwrites a parameter of the layer during the forward pass' % astu.short(st))
+      key = key_of(f, 'parameters are read, never written')
+      if bad:
+        R.fail(key, (f, bad[0]), bad[1] + ' (Linen and the documented formula treat parameters as read-only inputs)')
+      else:
+        R.ok(key, f)
+  R.require(n >= 8, 'expected >= 8 NNX layer __call__ methods, found %d' % n)
 
 meta('C12',
      explanation='Only the clauses whose truth is in the shape of the code: the Dropout contract (early identity return dominating the rng draw, zeros at rate 1, mask arguments tainted by the data only '
